@@ -92,6 +92,7 @@ Definition exec_bop (s : st) (b : bop) : st :=
       | None => emit (classify i s) s
       end
   | BSnap => emit (ESnap (snapshot (pending s))) s
+  | BRaise => s                 (* only meaningful inside a call function, see [run_body] *)
   end.
 
 (** _insertNewDelayedCalls *)
@@ -135,7 +136,9 @@ Section Reactor.
                   else
                     let s1 := mkSt h' (nw s) (cancels s) (now s) (next s)
                                    (ERun c tnow (filter active h') :: log s) (oof s) in
-                    loop f tnow (emit (EEnd (cid c)) (fold_left exec_bop (body (cid c)) s1))
+                    (* an exception is caught and logged by the reactor (failuresHandled): the loop goes on *)
+                    let res := run_body exec_bop (body (cid c)) s1 in
+                    loop f tnow (emit (if snd res then ERaise (cid c) else EEnd (cid c)) (fst res))
               end
           end
         else s
